@@ -6,7 +6,7 @@
 From V.lib Require Import Base.
 From V.c01 Require Import C01Codec C01Model C01FileModel C01FileExamples.
 From V.c08 Require C08Model.
-From V.c10 Require Import C10Model C10FileModel C10TreeModel C10TreeProofs.
+From V.c10 Require Import C10Model C10FileModel C10TreeModel C10TreeProofs C10TreeSizeProofs.
 
 (* C01's decoder needs no more fuel than the structure of its result (need: one unit per nesting level and per sibling):
    a result obtained with any fuel is obtained with every fuel >= need.  (C01's fixed-point theorem re-decodes with the fuel of
@@ -41,6 +41,18 @@ Theorem C10_output_file_bytes : forall input ms out_bytes,
     out_bytes = pre ++ enc_hdr n_mdat (8 + lenN body) ++ body.
 Proof. exact crop_tool_file_bytes. Qed.
 Print Assumptions C10_output_file_bytes.
+
+(* C10_output_size: the boxes mp4ff-crop encodes have, TOGETHER, exactly the sizeWithoutMdat that updateChunkOffsets used to
+   shift the chunk offsets (as a uint64; no hypothesis beyond the modelled structure): replacing the table leaves changes the
+   Size() of the tree by the difference of the table-box sizes (the optional tables of the output are those of the input, cropStts
+   keeps as many deltas as counts), tkhd / mvhd / elst keep theirs, nothing else is touched.  With C10_output_file_bytes and
+   |pre| = the sum of the Size() (C10_output_decodes): the new mdat payload starts at byte swm + 8 of the file written, the
+   position the chunk offsets of C10_crop_end_to_end are relative to -- `rest` of that theorem is (Size() of the non-mdat input
+   boxes) - (Size() of the input's table boxes), computed by scope. *)
+Theorem C10_output_size : forall input ts ci ms out ranges swm, scope input ts = Some ci ->
+  crop_tree ts ci ms = Ok (out, ranges, swm) -> swm = u64 (sumN (map size_box out)).
+Proof. exact crop_tree_size. Qed.
+Print Assumptions C10_output_size.
 
 (* C10_output_decodes ("its output is a decodable progressive file"): when moreover the input boxes are exact (compact headers
    announcing Size(): C01's exact_box; every file the tools of the library write) and the numbers of the rebuilt leaves fit their
